@@ -22,7 +22,14 @@ def build(sc, nested):
     p = om.Problem()
     top = p.model
     if nested:
+        if nested == 'parent':
+            # the parent orders its own children as well and is itself declared in order
+            top.options['auto_order'] = True
+            top.add_subsystem('first', om.ExecComp('w = 2.0*v', w=0.0))
         g = top.add_subsystem('g', om.Group())
+        if nested == 'parent':
+            top.add_subsystem('last', om.ExecComp('w = 2.0*v', w=0.0))
+            top.connect('first.w', 'last.v')
     else:
         g = top
     g.options['auto_order'] = True
@@ -44,9 +51,15 @@ def _worker(chunk):
     out = []
     for sc, nested in chunk:
         try:
-            p, g = build(sc, nested)
+            p, g = build(sc, 'parent' if nested in ('parent', 'resetup') else nested)
             p.setup()
             p.final_setup()
+            if nested == 'resetup':
+                # a second setup of the same Problem (after a run) must order the subsystems again
+                if sc['acyclic']:
+                    p.run_model()
+                p.setup()
+                p.final_setup()
             order = [int(s.name[1:]) for s in g._subsystems_myproc if s.name.startswith('c')]
             res = {'ord': order}
             if sc['acyclic']:
@@ -78,7 +91,7 @@ def run(ctx):
         scen += big[:6000]
     for s in scen:
         s['edges'] = sorted(tuple(e) for e in s['edges'])
-    jobs = [(s, nested) for s in scen for nested in (False, True)]
+    jobs = [(s, nested) for s in scen for nested in (False, True, 'parent', 'resetup')]
     chunks = [c for c in split(jobs, 64) if c]
     res = [x for rs in pmap(_worker, chunks) for x in rs]
     # re-assemble in job order (split() is strided)
@@ -116,7 +129,7 @@ def run(ctx):
     ctx.exhaustive = quick
     for s in scen[100:400:140]:
         ctx.sample({'n': s['n'], 'edges': s['edges'], 'declared': s['decl'], 'acyclic': s['acyclic'], 'one_pass_outputs': s['y']})
-    ctx.rule = ('every digraph on %d subsystems x every declared order (TLC), each built flat and nested one level with '
-                'auto_order=True%s; non-trivial = distinct (graph with at least one edge, non-identity declared order, nesting) cases'
+    ctx.rule = ('every digraph on %d subsystems x every declared order (TLC), each built flat, nested one level with '
+                'auto_order=True, nested below an auto_order parent that is itself in order, and set up a second time after a run%s; non-trivial = distinct (graph with at least one edge, non-identity declared order, nesting) cases'
                 % (3, '' if quick else ' plus a seeded sample of 6000 of the 98304 four-node cases'))
     ctx.assumptions = ['scalar ExecComp subsystems; run-once solvers (the default)', 'no MPI']
